@@ -53,11 +53,12 @@ def analyse(repo: str, props: list[str]) -> dict[str, list[dict]]:
         ck = Check(p, prog)
         try:
             mod.run(ck)
-            for rule, minimum in ck.floors.items():
-                n = sum(1 for o in ck.obs if o.rule == rule)
-                if n < minimum:
-                    raise AnalysisError(f"floor {rule}: {n} < {minimum}")
             res[p] = [o.as_dict() for o in ck.obs if not o.ok]
+            if not res[p]:
+                for rule, minimum in ck.floors.items():
+                    n = sum(1 for o in ck.obs if o.rule == rule)
+                    if n < minimum:
+                        raise AnalysisError(f"floor {rule}: {n} < {minimum}")
         except AnalysisError as e:
             res.setdefault("ERROR", []).append({"property": p, "detail": str(e)})
         except Exception as e:  # noqa
